@@ -85,7 +85,70 @@ def graph_cases(max_nodes, tier, seed=0):
             mode = "source" if (len(cases) % 2 == 0) else "api"
             cases.append({"mode": mode, "commands": cmds, "actions": ["run", "run", "result:%s" % cmds[0]["name"]],
                           "meta": {"n": n, "edges": list(edges), "cyclic": has_cycle(n, edges), "style": style}})
+    cases += history_cases()
     return cases
+
+
+def history_cases():
+    """multi-step histories: a run that fails part-way and is repeated after the fault is gone; a rejected cyclic model used again"""
+    ref = lambda n: {"ref": n}
+    cases = []
+    chain = [{"name": "L0", "cls": "Leaf", "args": {}}, {"name": "F1", "cls": "Flaky", "args": {"A": ref("L0")}},
+             {"name": "N2", "cls": "Node", "args": {"A": ref("F1"), "B": ref("L0")}}, {"name": "N3", "cls": "Node", "args": {"L": {"list": [ref("N2"), ref("F1")]}}}]
+    for order in ([0, 1, 2, 3], [3, 2, 1, 0], [2, 0, 3, 1]):
+        for mode in ("source", "api"):
+            cases.append({"mode": mode, "commands": [chain[i] for i in order], "actions": ["run", "result:N2", "heal", "run", "run", "result:N3"],
+                          "meta": {"n": 4, "edges": [], "cyclic": False, "style": "failure-history", "history": "fail-then-retry"}})
+    cyc = [{"name": "A", "cls": "Node", "args": {"A": ref("B")}}, {"name": "B", "cls": "Node", "args": {"L": {"list": [ref("A")]}}},
+           {"name": "T", "cls": "Node", "args": {"A": ref("A")}}, {"name": "S", "cls": "Leaf", "args": {}}]
+    for order in ([0, 1, 2, 3], [3, 2, 1, 0], [2, 3, 0, 1]):
+        for mode in ("source", "api"):
+            cases.append({"mode": mode, "commands": [cyc[i] for i in order], "actions": ["run", "result:A", "run", "result:T"],
+                          "meta": {"n": 4, "edges": [], "cyclic": True, "style": "rejection-history", "history": "rejected-then-reused"}})
+    return cases
+
+
+def judge_history(case, out):
+    bad = []
+    steps = out["steps"]
+    names = [c["name"] for c in case["commands"]]
+    if case["meta"]["history"] == "fail-then-retry":
+        s0, s1, s2, s3, s4, s5 = steps
+        if s0["outcome"] != "raise" or not s0.get("is_mpilot"):
+            bad.append(("raises_only", "the run with the transient fault ended with %s" % (s0.get("exc_class") or "a normal return")))
+        for n in ("F1", "N2", "N3"):
+            if s0["finished"].get(n):
+                bad.append(("finished", "%s is marked finished although its execution failed (result %r)" % (n, s0["results"].get(n))))
+        if s1["outcome"] != "raise":
+            bad.append(("memo", "reading the result of a command downstream of the failure returned %r" % (s1["results"].get("N2"),)))
+        if s3["outcome"] != "return":
+            bad.append(("once", "after the fault was gone run() ended with %s: %s" % (s3.get("exc_class"), s3.get("msg", "")[:100])))
+        else:
+            if not all(s3["finished"].values()):
+                bad.append(("all-finished", "run() returned with unfinished commands %s" % [n for n, f in s3["finished"].items() if not f]))
+            want = {"L0": 1, "F1": 11, "N2": 13, "N3": 25}
+            for n, v in want.items():
+                if s3["results"].get(n) != v:
+                    bad.append(("memo", "%s holds %r after the successful run, the graph evaluates to %r" % (n, s3["results"].get(n), v)))
+            ex = s3["executions"]
+            if ex.count("L0") != 1:
+                bad.append(("once", "L0 executed %d times over the failed and the successful run" % ex.count("L0")))
+            for n in ("N2", "N3"):
+                if ex.count(n) > 1 + (1 if n in s0["executions"] else 0):
+                    bad.append(("once", "%s executed %d times" % (n, ex.count(n))))
+            if len(s4["executions"]) != len(ex) or len(s5["executions"]) != len(ex) or s4["outcome"] != "return" or s5["outcome"] != "return":
+                bad.append(("memo", "a further run / result access executed something again"))
+        return bad
+    # a rejected cyclic model used again: every use is rejected the same way, nothing on the cycle ever counts as finished
+    for i, s in enumerate(steps):
+        if s["outcome"] == "return":
+            bad.append(("all-finished" if s["action"] == "run" else "reentrancy", "step %d (%s) of a cyclic model returned normally (results %s)" % (i, s["action"], s["results"])))
+        elif s.get("exc_class") != "RecursiveModelStructure":
+            bad.append(("reentrancy", "step %d (%s) was rejected with %s instead of RecursiveModelStructure" % (i, s["action"], s.get("exc_class"))))
+        for n in ("A", "B", "T"):
+            if s["finished"].get(n):
+                bad.append(("reentrancy", "after step %d the cycle member / dependent %s counts as finished" % (i, n)))
+    return bad
 
 
 def judge_graph(case, out):
@@ -95,6 +158,8 @@ def judge_graph(case, out):
         return [("harness-error", out["harness_error"][-300:])]
     if out["load"]["outcome"] != "ok":
         return [("load", "the stub program did not load: %s" % out["load"])]
+    if case["meta"].get("history"):
+        return judge_history(case, out)
     names = [c["name"] for c in case["commands"]]
     steps = out["steps"]
     first = steps[0]
